@@ -197,9 +197,7 @@ fn cases(quick: bool) -> Vec<Case> {
             } else {
                 (-6..=6).collect()
             };
-            if quick && *k == 2 && *cap != usize::MAX {
-                continue;
-            }
+            let light = quick && *k == 2 && *cap != usize::MAX;
             for d in &ds {
                 let l = (*k as i64 * MAXP as i64 + d) as usize;
                 // one text cell filling the message
@@ -212,6 +210,11 @@ fn cases(quick: bool) -> Vec<Case> {
                         v.push(Case { label: format!("binary row, one blob, message {}*(2^24-1){:+} ({})", k, d, capname), shape: Shape::BinCell(x), msg_len: l, write_cap: *cap });
                     }
                 }
+            }
+            if light {
+                // quick tier: under short transport writes only the plain one-cell messages of
+                // two maximal packets (text and binary); thorough runs every shape
+                continue;
             }
             // the limit falls inside / before / after the second cell's 3-byte length prefix
             for off in -1i64..=4 {
